@@ -103,7 +103,7 @@ func init() {
 			{Pattern: "css.Hash.*", Levels: "S"}, {Pattern: "html.Hash.*", Levels: "S"},
 		},
 		NotDecided: []string{
-			"EncodeURL/DecodeURL byte-for-byte functional behaviour and agreement with net/url (proved: both only write their own argument, and the tables escape every byte the matching decoder gives a meaning to: '%' and '+' for URLs, '%' for data URIs)",
+			"EncodeURL/DecodeURL byte-for-byte functional behaviour and agreement with net/url (proved: both only write their own argument; an argument without percent escapes is decoded to itself with every '+' turned into a space, and by the data-URI decoder to itself unchanged, '+' included; the tables escape every byte the matching decoder gives a meaning to: '%' and '+' for URLs, '%' for data URIs)",
 			"DataURI payload equality with encoding/base64 and Mediatype agreement with mime.ParseMediaType (external oracles); proved besides memory safety: a data URI reports a media type that does not start with ';' (text/plain when it has none), and Mediatype stops scanning only at the end of the input or at a byte that is neither padding nor a parameter separator (no parameter after spaces is left unread)",
 			"completeness of the ToHash tables (every listed name hashes to its constant: the FNV arithmetic over XOR is outside the integer encoding); proved are soundness (a non-zero result names exactly the argument) and the consistency of the generated data: every table entry is a declared constant, every constant occurs in the table, and each constant's offset and length select its own name in the text",
 		},
@@ -117,7 +117,7 @@ func init() {
 		},
 		NotDecided: []string{
 			"decoded-text preservation and idempotence of ReplaceEntities (HTML's entity table is an external oracle); proved is the local guard they rest on: a reference is never decoded to a bare '&' directly in front of a letter, digit or '#'",
-			"ReplaceMultipleWhitespace / ReplaceMultipleWhitespaceAndEntities: proved are memory safety, never-longer, and the run rule at its source: after the iteration that meets a white-space byte, that position holds ' ' or (if the byte was a line break) a newline, whatever the run's length, and neither compaction nor entity rewriting writes in front of it; not decided: that the compaction drops exactly the rest of each run and nothing else (the end-to-end 'equals the regular-expression replacement' statement), and equality of the combined function with the two applied in sequence",
+			"ReplaceMultipleWhitespace / ReplaceMultipleWhitespaceAndEntities: proved are memory safety, never-longer, that the newline flag is exactly 'the run scanned so far contains \\n or \\r', and the run rule at its source: after the iteration that meets a white-space byte, that position holds ' ' or (if the byte was a line break) a newline, whatever the run's length, and neither compaction nor entity rewriting writes in front of it; not decided: that the compaction drops exactly the rest of each run and nothing else (the end-to-end 'equals the regular-expression replacement' statement), and equality of the combined function with the two applied in sequence",
 			"round trip of the escaped value through the html/xml lexers (proved instead are the sufficient local conditions: no raw quote inside a quoted value; an html value is left unquoted only if it contains no ASCII whitespace, quote, backtick, '=', '<' or '>')",
 		},
 		Technique: "deductive verification: in-place compaction index invariants, never-longer postcondition of replaceEntities under the stated map assumption, exact buffer sizing of the Escape* functions by a counting invariant (cnt spec function, lemmas proved by induction), no-raw-quote postcondition; VCs discharged by z3/cvc5",
@@ -183,7 +183,7 @@ func init() {
 		ID: "C09", Title: "HTML lexer recognises tags, attributes, raw text and foreign content",
 		Sel: []Sel{{Pattern: "html.Lexer.*", Levels: "SF"}, {Pattern: "html.NewLexer", Levels: "S"}, {Pattern: "html.NewTemplateLexer", Levels: "S"}, {Pattern: "html.ToHash", Levels: "SF"}, {Pattern: "html.Hash.*", Levels: "S"}},
 		NotDecided: []string{
-			"conformance of the token stream to the HTML construct grammar (one token per construct with the right type)",
+			"conformance of the token stream to the HTML construct grammar (one token per construct with the right type); proved are the extents it rests on: a comment ends at the first '-->' or '--!>', a CDATA section at the first ']]>', a doctype at the first '>', a quoted attribute value at its own closing quote whatever template regions follow it inside the token, and inside a template region a quoted string ends at the first quote after an even run of backslashes",
 			"raw-text termination at the matching end tag and the script double-escape rules (proved: memory safety, the unchanged-input frame and token conservation of shiftRawText, candidate end-tag names are compared in lower case, the lexer is armed with exactly the tag whose name hashed to a raw-text element, and an empty raw text disarms it)",
 			"svg/math subtrees returned as one token (proved: the quote flag of the subtree scanner is exactly the parity of the double quotes scanned); 'a delimited region is never split across tokens' (proved: in content the template token wins whenever the opening delimiter stands at the token's first byte); HasTemplate exactly when a delimiter was crossed (only: HasTemplate implies delimiters are configured)",
 			"with template delimiters configured an attribute key is proved lower-cased unless a byte of the name equals the first byte of the opening delimiter (a necessary condition for a template region inside the name); that such a region really was entered is not decided",
@@ -231,6 +231,7 @@ func init() {
 			"that the scan stops exactly at the offset or inside the character containing it (exit condition of the loop; proved are the invariants: cursor <= offset, cursor at a character boundary, line == 1 + breaks ending before the cursor)",
 			"js.Parse's offset 'cursor minus length of the current token' (the JS parser is outside the verified subset)",
 			"NewErrorLexer is trusted for its frame (pure); its body is verified at facet F only (offset inside the input, error carries Position's line)",
+			"css.Parser.Err is proved to be an observer (it writes no parser state, so nothing is cached between errors) and to build its error from the current err/errPos",
 		},
 		Technique: "deductive verification: user-defined recursive spec function lbEnds (line breaks ending before a position) with engine-asserted unfoldings, well-formed-UTF-8 hypothesis as a ghost attribute of the reader, loop invariants of parse.Position; ghost errOff links every error created by NewErrorLexer to the cursor, clauses on json.Parser.Next / js.Lexer.Next / css.Parser.Err bound it to the scanned span; VCs from go/ssa discharged by z3/cvc5",
 	})
